@@ -714,7 +714,8 @@ class Network:
             async with atimeout(timeout):
                 _, response = await future
         except TimeoutError as exc:
-            future.set_exception(exc)
+            if not future.done():
+                future.set_exception(exc)
             raise
 
         return response
@@ -754,7 +755,8 @@ class Network:
             async with atimeout(timeout):
                 _, response = await future
         except TimeoutError as exc:
-            future.set_exception(exc)
+            if not future.done():
+                future.set_exception(exc)
             raise
 
         return response
